@@ -99,6 +99,27 @@ CHECKS = {
              "tag, doc-string/table before a step) is injected at every position of a valid document where it is a fault and must be "
              "reported at the injected line. Thorough adds an in-process atheris campaign (empty and seeded corpus, keyword dictionary).",
         note="Trusted: position computation from renderer facts. Termination only via watchdog. language= argument always a known code."),
+    "C06": dict(
+        level="exploration", design="DESIGN.md 5/C06",
+        technique="property-based testing: generated outlines rendered and parsed, own simultaneous-substitution expander as "
+                  "reference model; stateful table-API edit histories; mutation-independence (aliasing) probes",
+        text="Outlines with placeholders in name / step names / doc-strings / step tables / tags, several examples blocks with "
+             "different column orders, annotation schemas; the scenarios built by behave are compared with an own expander (count, "
+             "order, names, tags + examples tags, steps, tables, row line); the template must stay byte-identical, mutating one "
+             "generated scenario must not leak into siblings or the template, and after add_row/add_column/ensure_column_exists/"
+             "remove_column the rebuilt expansion must equal the oracle on the edited table.",
+        note="Trusted: expander in vf/props/c06.py. Values never contain '<' '>'; tag-position values are tag-safe or blanks."),
+    "C10": dict(
+        level="exploration", design="DESIGN.md 5/C10",
+        technique="property-based testing with complete per-document enumeration: every line number (and all pairs for short "
+                  "documents) as file:LINE through parse_features vs. an entity table from the renderer; @listfile / multi-file lists; "
+                  "name patterns vs. any(re.search)",
+        text="For each generated document every line from 0 to last+3 is used as location (complete), all pairs of lines for "
+             "documents <= 12 lines, drawn triples, lists over 2-3 files directly and via @listfile in cwd or a sub-directory with "
+             "comments / blanks / indented entries; the set of scenarios left un-skipped must equal the selection of the nearest "
+             "entity starting at or above the line (union over a group), except @setup/@teardown; a sample is executed; "
+             "FileLocationParser and --name selection are checked against own reference implementations.",
+        note="Trusted: entity table from vf/program.py facts. Lines above the Feature line not compared."),
 }
 
 PENDING_REASON = "not yet claimed in this revision: the check for this property is still under construction (see DESIGN.md 5)"
